@@ -6,6 +6,7 @@ import Driver.C05
 import Driver.C10
 import Driver.C13
 import Driver.C15
+import Driver.C07
 import Driver.C09
 import Driver.C17
 import Driver.C20
@@ -22,6 +23,7 @@ structure DState where
   wire : Amqp.Wire.S := {}
   alloc : Amqp.Alloc.A := { max := 0 }
   rpc : Amqp.Rpc.S := {}
+  errs : Amqp.Errors.C := {}
 
 def handlers : List Handler := [
   Driver.C04.handle,
@@ -46,6 +48,9 @@ def step (st : DState) (line : String) : DState × String :=
   | none =>
   match Driver.C05.stepCmd st.rpc args with
   | some (r, o) => ({ st with rpc := r }, o)
+  | none =>
+  match Driver.C07.stepCmd st.errs args with
+  | some (e, o) => ({ st with errs := e }, o)
   | none =>
     match handlers.findSome? (fun h => h args) with
     | some o => (st, o)
